@@ -50,6 +50,9 @@ pub struct Compiled {
     pub named: bool,
     /// All classes occurring in the definition (for input generation).
     pub classes: Vec<Cls>,
+    /// Symbols read so far by `scan` and by right-context evaluation (a deterministic cost
+    /// measure used to keep long generated inputs away from quadratic / cubic worst cases).
+    pub steps: u64,
 }
 
 fn collect_classes(re: &Re, out: &mut Vec<Cls>) {
@@ -108,6 +111,7 @@ impl Compiled {
             sets,
             named: flat.named,
             classes,
+            steps: 0,
         }
     }
 
@@ -130,6 +134,7 @@ impl Compiled {
             };
             node = self.arena.deriv(node, sym);
             pos += 1;
+            self.steps += 1;
         }
     }
 }
@@ -173,6 +178,7 @@ impl Matcher for Compiled {
                 let Compiled { arena, sets, .. } = self;
                 sets[set].dfa.step(arena, cur, sym)
             };
+            self.steps += 1;
             i += 1;
             if self.sets[set].dfa.state(nxt).dead {
                 break;
